@@ -21,12 +21,13 @@ type Engine struct {
 	InlineDepth int
 	serial      int
 	loops       map[*ssa.Function][]*Loop
-	objSerial   map[ssa.Value]int
+	objSerial   map[objKey]int
 	objBySerial map[int]ssa.Value
+	objOwner    map[int]*Eval
 }
 
 func NewEngine(inRepo func(string) bool, inlineDepth int) *Engine {
-	return &Engine{InRepo: inRepo, InlineDepth: inlineDepth, loops: map[*ssa.Function][]*Loop{}, objSerial: map[ssa.Value]int{}, objBySerial: map[int]ssa.Value{}}
+	return &Engine{InRepo: inRepo, InlineDepth: inlineDepth, loops: map[*ssa.Function][]*Loop{}, objSerial: map[objKey]int{}, objBySerial: map[int]ssa.Value{}, objOwner: map[int]*Eval{}}
 }
 
 func (e *Engine) Loops(fn *ssa.Function) []*Loop {
@@ -38,13 +39,22 @@ func (e *Engine) Loops(fn *ssa.Function) []*Loop {
 	return l
 }
 
-func (e *Engine) serialOf(v ssa.Value) int {
-	if n, ok := e.objSerial[v]; ok {
+// objKey identifies a run-time object/call abstractly: the instruction together with the activation executing it (the same
+// allocation site reached through two inlined calls yields two distinct objects).
+type objKey struct {
+	ev *Eval
+	v  ssa.Value
+}
+
+func (e *Engine) serialFor(ev *Eval, v ssa.Value) int {
+	k := objKey{ev, v}
+	if n, ok := e.objSerial[k]; ok {
 		return n
 	}
 	e.serial++
-	e.objSerial[v] = e.serial
+	e.objSerial[k] = e.serial
 	e.objBySerial[e.serial] = v
+	e.objOwner[e.serial] = ev
 	return e.serial
 }
 
@@ -62,6 +72,18 @@ type Eval struct {
 	children map[ssa.CallInstruction]*Eval
 	stores   *storeIndex
 	loopVars map[*ssa.Phi]*Term
+	loops    []*Loop
+	loopsSet bool
+}
+
+// Loops returns the natural loops of this activation's function; loop descriptors carry activation-specific terms (initial
+// value, bound), so they are not shared between activations.
+func (ev *Eval) Loops() []*Loop {
+	if !ev.loopsSet {
+		ev.loops = findLoops(ev.Fn)
+		ev.loopsSet = true
+	}
+	return ev.loops
 }
 
 // NewEval creates the top-level activation of fn with symbolic parameters named after the source parameters.
@@ -130,7 +152,7 @@ func (ev *Eval) op(x ssa.Value, user ssa.Instruction) *Term {
 
 func (ev *Eval) opIn(x ssa.Value, userBlock *ssa.BasicBlock) *Term {
 	if p, ok := x.(*ssa.Phi); ok && userBlock != nil {
-		if l := loopWithHeader(ev.E.Loops(ev.Fn), p.Block()); l != nil && l.Blocks[userBlock] {
+		if l := loopWithHeader(ev.Loops(), p.Block()); l != nil && l.Blocks[userBlock] {
 			return ev.loopVar(l, p)
 		}
 	}
@@ -238,13 +260,13 @@ func (ev *Eval) compute(v0 ssa.Value) *Term {
 	case *ssa.Builtin:
 		return &Term{K: KFunc, Name: "builtin." + v.Name()}
 	case *ssa.Alloc:
-		return &Term{K: KAlloc, N: ev.E.serialOf(v), Name: v.Comment, Type: v.Type(), Instr: v}
+		return &Term{K: KAlloc, N: ev.E.serialFor(ev, v), Name: v.Comment, Type: v.Type(), Instr: v}
 	case *ssa.MakeSlice:
-		return &Term{K: KMake, N: ev.E.serialOf(v), Args: []*Term{T(v.Len)}, Type: v.Type(), Instr: v}
+		return &Term{K: KMake, N: ev.E.serialFor(ev, v), Args: []*Term{T(v.Len)}, Type: v.Type(), Instr: v}
 	case *ssa.MakeMap, *ssa.MakeChan:
-		return &Term{K: KOpaque, N: ev.E.serialOf(v), Name: fmt.Sprintf("%T", v)}
+		return &Term{K: KOpaque, N: ev.E.serialFor(ev, v), Name: fmt.Sprintf("%T", v)}
 	case *ssa.MakeClosure:
-		return &Term{K: KOpaque, N: ev.E.serialOf(v), Name: "closure " + v.Fn.Name()}
+		return &Term{K: KOpaque, N: ev.E.serialFor(ev, v), Name: "closure " + v.Fn.Name()}
 	case *ssa.FieldAddr:
 		return Field(T(v.X), fieldName(v.X.Type(), v.Field))
 	case *ssa.Field:
@@ -273,7 +295,7 @@ func (ev *Eval) compute(v0 ssa.Value) *Term {
 		case token.MUL:
 			return ev.load(v)
 		case token.ARROW:
-			return &Term{K: KCall, Name: "recv", Args: []*Term{T(v.X)}, N: ev.E.serialOf(v)}
+			return &Term{K: KCall, Name: "recv", Args: []*Term{T(v.X)}, N: ev.E.serialFor(ev, v)}
 		case token.SUB:
 			return AffScale(T(v.X), -1)
 		default:
@@ -308,7 +330,7 @@ func (ev *Eval) compute(v0 ssa.Value) *Term {
 	case *ssa.Call:
 		return ev.call(v)
 	case *ssa.Range, *ssa.Next, *ssa.Select:
-		return &Term{K: KOpaque, N: ev.E.serialOf(v), Name: fmt.Sprintf("%T", v)}
+		return &Term{K: KOpaque, N: ev.E.serialFor(ev, v), Name: fmt.Sprintf("%T", v)}
 	}
 	return Top("unhandled SSA value %T", v0)
 }
@@ -386,7 +408,7 @@ func (ev *Eval) binop(v *ssa.BinOp) *Term {
 // ---- phis and loops
 
 func (ev *Eval) phi(p *ssa.Phi) *Term {
-	loops := ev.E.Loops(ev.Fn)
+	loops := ev.Loops()
 	l := loopWithHeader(loops, p.Block())
 	if l == nil {
 		if m := ev.rotatedExitPhi(p); m != nil {
@@ -420,7 +442,7 @@ func (ev *Eval) rotatedExitPhi(p *ssa.Phi) *Term {
 	if len(p.Edges) != 2 {
 		return nil
 	}
-	loops := ev.E.Loops(ev.Fn)
+	loops := ev.Loops()
 	for i := 0; i < 2; i++ {
 		latch, other := p.Block().Preds[i], p.Block().Preds[1-i]
 		l := innermost(loops, latch)
@@ -777,19 +799,19 @@ func (ev *Eval) call(c *ssa.Call) *Term {
 			if at.Name == "ToBinary" {
 				// the bits are prover-supplied hint outputs: two decompositions of the same value are distinct wires
 				// (and need not be equal when the width reaches the field size), so the call site is part of the identity
-				at.N = ev.E.serialOf(c)
+				at.N = ev.E.serialFor(ev, c)
 			}
 			return at
 		}
 		full := "(" + typeString(com.Value.Type()) + ")." + com.Method.Name()
-		return &Term{K: KCall, Name: full, Args: append([]*Term{recv}, ev.args(com.Args, c)...), Instr: c, N: ev.E.serialOf(c)}
+		return &Term{K: KCall, Name: full, Args: append([]*Term{recv}, ev.args(com.Args, c)...), Instr: c, N: ev.E.serialFor(ev, c)}
 	}
 	if b, ok := com.Value.(*ssa.Builtin); ok {
 		return ev.builtin(c, b)
 	}
 	callee := com.StaticCallee()
 	if callee == nil {
-		return &Term{K: KCall, Name: "dynamic", Args: append([]*Term{ev.op(com.Value, c)}, ev.args(com.Args, c)...), Instr: c, N: ev.E.serialOf(c)}
+		return &Term{K: KCall, Name: "dynamic", Args: append([]*Term{ev.op(com.Value, c)}, ev.args(com.Args, c)...), Instr: c, N: ev.E.serialFor(ev, c)}
 	}
 	if callee.Pkg != nil && callee.Pkg.Pkg.Path() == abstractorPkg && strings.HasPrefix(callee.Name(), "Call") && len(com.Args) == 2 {
 		return ev.gadgetCall(c, com.Args[1])
@@ -802,7 +824,7 @@ func (ev *Eval) call(c *ssa.Call) *Term {
 		ch := ev.child(c, callee, ev.args(com.Args, c), free)
 		return ch.Return()
 	}
-	return &Term{K: KCall, Name: CalleeName(callee), Args: ev.args(com.Args, c), Instr: c, N: ev.E.serialOf(c)}
+	return &Term{K: KCall, Name: CalleeName(callee), Args: ev.args(com.Args, c), Instr: c, N: ev.E.serialFor(ev, c)}
 }
 
 func (ev *Eval) inlinable(fn *ssa.Function) bool {
@@ -821,12 +843,14 @@ func (ev *Eval) inlinable(fn *ssa.Function) bool {
 // Return is the merged term of the function's results.
 func (ev *Eval) Return() *Term {
 	var rets [][]*Term
+	var retBlocks []*ssa.BasicBlock
 	for _, b := range ev.Fn.Blocks {
 		if len(b.Instrs) == 0 {
 			continue
 		}
 		if r, ok := b.Instrs[len(b.Instrs)-1].(*ssa.Return); ok {
 			rets = append(rets, ev.args(r.Results, r))
+			retBlocks = append(retBlocks, b)
 		}
 	}
 	if len(rets) == 0 {
@@ -834,7 +858,36 @@ func (ev *Eval) Return() *Term {
 	}
 	n := len(rets[0])
 	merged := make([]*Term, n)
+	// two returns below one branch: gate the merge by the branch condition
+	var gate *Term
+	var gateFlip bool
+	if len(retBlocks) == 2 {
+		for d := retBlocks[0].Idom(); d != nil; d = d.Idom() {
+			ifi, ok := lastIf(d)
+			if !ok {
+				continue
+			}
+			t0, f0 := d.Succs[0].Dominates(retBlocks[0]) || d.Succs[0] == retBlocks[0], d.Succs[1].Dominates(retBlocks[0]) || d.Succs[1] == retBlocks[0]
+			t1, f1 := d.Succs[0].Dominates(retBlocks[1]) || d.Succs[0] == retBlocks[1], d.Succs[1].Dominates(retBlocks[1]) || d.Succs[1] == retBlocks[1]
+			if t0 && !f0 && f1 && !t1 {
+				gate = ev.op(ifi.Cond, ifi)
+			} else if f0 && !t0 && t1 && !f1 {
+				gate, gateFlip = ev.op(ifi.Cond, ifi), true
+			}
+			if d.Dominates(retBlocks[1]) {
+				break
+			}
+		}
+	}
 	for i := 0; i < n; i++ {
+		if gate != nil && rets[0][i].Key() != rets[1][i].Key() {
+			a, b := rets[0][i], rets[1][i]
+			if gateFlip {
+				a, b = b, a
+			}
+			merged[i] = &Term{K: KIte, Args: []*Term{gate, a, b}}
+			continue
+		}
 		var args []*Term
 		seen := map[string]bool{}
 		for _, r := range rets {
@@ -893,7 +946,7 @@ func (ev *Eval) builtin(c *ssa.Call, b *ssa.Builtin) *Term {
 	case "cap":
 		return &Term{K: KCall, Name: "cap", Args: args}
 	}
-	return &Term{K: KCall, Name: "builtin." + b.Name(), Args: args, Instr: c, N: ev.E.serialOf(c)}
+	return &Term{K: KCall, Name: "builtin." + b.Name(), Args: args, Instr: c, N: ev.E.serialFor(ev, c)}
 }
 
 // ---- events
@@ -958,7 +1011,7 @@ func (e Event) OnEveryPathToReturn() (ok bool, inLoop bool) {
 				}
 			}
 		}
-		if innermost(a.E.Loops(a.Fn), blk) != nil {
+		if innermost(a.Loops(), blk) != nil {
 			inLoop = true
 		}
 		if a.Parent == nil {
@@ -971,7 +1024,7 @@ func (e Event) OnEveryPathToReturn() (ok bool, inLoop bool) {
 
 // LoopOf returns the innermost loop containing the event in its own activation.
 func (e Event) LoopOf() *Loop {
-	return innermost(e.Ev.E.Loops(e.Ev.Fn), e.Instr.Block())
+	return innermost(e.Ev.Loops(), e.Instr.Block())
 }
 
 // isErrorReturn: the last result has type error and is not the nil constant.
